@@ -5,6 +5,6 @@ From Coq Require Import List NArith Bool.
 From NngV Require Import Gen.Consts Proto.Common Proto.PairModel Proto.PairGuard.
 
 Definition pair1_init : pair := pair_init.
-Definition pair1_step : pair -> pop -> pair * list pout := pair_step_g (K1 false) C08_PAIR1_STOP_WRITABLE_FIXED C08_PAIR1_STALE_FIXED.
-Definition pair1_raw_step : pair -> pop -> pair * list pout := pair_step_g (K1 true) C08_PAIR1_STOP_WRITABLE_FIXED C08_PAIR1_STALE_FIXED.
+Definition pair1_step : pair -> pop -> pair * list pout := pair_step_g (K1 false) C08_PAIR1_STOP_WRITABLE_FIXED C08_PAIR1_RESIZE_ADMITS_FIXED C08_PAIR1_STALE_FIXED.
+Definition pair1_raw_step : pair -> pop -> pair * list pout := pair_step_g (K1 true) C08_PAIR1_STOP_WRITABLE_FIXED C08_PAIR1_RESIZE_ADMITS_FIXED C08_PAIR1_STALE_FIXED.
 Definition pair1_poll : pair -> ppoll := pair_poll.
